@@ -63,6 +63,9 @@ def _p1(ctx, rep):
     if not loops:
         rep.undecided("P1", f, "loop", "expected a loop over the linear estimates")
         return
+    # the sequence handed to the result object, whatever it is called
+    res0 = [n for n in own_nodes(f.node) if isinstance(n, ast.Call) and unparse(n.func) == "ProjectedLinearEstimationResult"]
+    seq_name = unparse(res0[0].args[0]) if len(res0) == 1 and res0[0].args and isinstance(res0[0].args[0], ast.Name) else "proj_estimated_var_sequence"
     n_checked = 0
     for lp in loops:
         it = lp.iter
@@ -81,7 +84,7 @@ def _p1(ctx, rep):
             if isinstance(st, ast.Assign) and len(st.targets) == 1 and isinstance(st.targets[0], ast.Name):
                 body_defs[st.targets[0].id] = st.value
         apps = [n for n in ast.walk(lp) if isinstance(n, ast.Call) and isinstance(n.func, ast.Attribute) and n.func.attr == "append"
-                and unparse(n.func.value) == "proj_estimated_var_sequence"]
+                and unparse(n.func.value) == seq_name]
         if not apps:
             continue
         n_checked += 1
@@ -105,6 +108,8 @@ def _p1(ctx, rep):
                 def leaves(x, seen):
                     if isinstance(x, ast.Subscript) and is_num(x.slice, 0):
                         return leaves(x.value, seen)
+                    if isinstance(x, ast.IfExp):
+                        return leaves(x.body, seen) + leaves(x.orelse, seen)
                     if isinstance(x, ast.Name) and x.id in all_defs and x.id not in seen:
                         out = []
                         for d_ in all_defs[x.id]:
@@ -135,7 +140,7 @@ def _p1(ctx, rep):
     if not n_checked:
         rep.undecided("P1", f, "append", "no loop appends to the returned sequence")
     res = [n for n in own_nodes(f.node) if isinstance(n, ast.Call) and unparse(n.func) == "ProjectedLinearEstimationResult"]
-    ok = len(res) == 1 and res[0].args and unparse(res[0].args[0]) == "proj_estimated_var_sequence"
+    ok = len(res) == 1 and res[0].args and unparse(res[0].args[0]) == seq_name and n_checked > 0
     rep.check(ok, "P1", f, res[0] if res else "result", "result carries the projected sequence", "result is not built from the projected sequence",
               node=res[0] if res else f.node)
 
